@@ -94,10 +94,10 @@ prop('C17', level='proof', modules=['Polyseed.Props.C17'], suites=[],
      assumptions=['NFC composition does not lengthen a string'])
 prop('C01', level='proof', modules=['Polyseed.Props.C01'], suites=['pack'],
      api=dict(cone=['encode', 'decode', 'decodex', 'decoden', 'create', 'load', 'dump', 'store', 'keygen'], weights=dict(roundtrip=8, crypt=1, storage=1)), extra='extra_norm',
-     text='Theorems decodeExplicit_encode (for EVERY canonical supported seed, coin < 2048 and language whose table passed the kernel check: explicit decoding of the encoded phrase returns OK and the identical seed), decode_encode (auto-detection: that seed with that language, or the multiple-languages status; nothing else), decodeExplicit_wrong_coin, normOK_ascii. They rest on polyToData_dataToPoly (packing round trip, all seeds), the GF(2048) algebra, splitN_joinWords, findAll_words (from the tables) and one explicit hypothesis NormOK about the injected normalisers (proved for ASCII phrases, validated by S-norm for the others). S-api performs round trips in all languages with real NFC/NFKD (utf8proc) and compares seeds, serialized bytes and KDF inputs.',
+     text='Theorems decodeExplicit_encode (for EVERY canonical supported seed, coin < 2048 and language whose table passed the kernel check: explicit decoding of the encoded phrase returns OK and the identical seed), decode_encode (auto-detection: that seed with that language, or the multiple-languages status; nothing else), decodeExplicit_wrong_coin, normOK_ascii. They rest on polyToData_dataToPoly (packing round trip, all seeds), the GF(2048) algebra, splitN_joinWords, findAll_words (from the tables) and one explicit hypothesis NormOK about the injected normalisers; normOK_of_asciiCheck discharges it for the four languages whose REGENERATED tables are pure ASCII (English, Italian, Portuguese, Czech: kernel-checked asciiOk) from the dependency contract alone (normalisers are the identity on ASCII), so the round trip there has no hypothesis about Unicode data; for the other six NormOK is validated by exhaustive execution (S-norm). S-api performs round trips in all languages with real NFC/NFKD (utf8proc) and compares seeds, serialized bytes and KDF inputs.',
      note=PROOF_NOTE + 'NormOK (NFKD(NFC(phrase)) = words joined by single spaces) is a statement about Unicode data outside the repository: validated by exhaustive execution over all 20480 words and separators with two independent normalisers, not proved.',
      technique='Lean 4 proof (round trip through packing, checksum, tokeniser and table lookup; hypothesis NormOK) + API round trips with real normalisers',
-     assumptions=['NormOK for non-ASCII phrases; allocation succeeds (explicit hypothesis); coin < 2048'])
+     assumptions=['NormOK for the six non-ASCII languages; allocation succeeds (explicit hypothesis); coin < 2048'])
 prop('C07', level='proof', modules=['Polyseed.Props.C07'], suites=['tables', 'find'], extra='extra_prefix_words',
      text='Theorems about the tables REGENERATED from the current tree: frozen (= the committed pinned lists: names, flags, separators, all 20480 words), tables_ok / find_full_word (every word is found at its own index by the library search: bsearch decision-tree certificate for the 8 sorted lists under the language comparator, first-match + bitmap distinctness for the 2 Chinese lists), words_distinct, word_bytes, prefix4_distinct (bitmap over base-27 prefix codes), prefix_languages, accents_imply_compose, empty_token. All by kernel evaluation (decide +kernel), ~1 min on 16 cores when a list changed. The normalisation clauses are validated by exhaustive execution (S-norm), not proved. The literal clause "no word is a prefix of another" is false for 49 English + 30 Spanish three-letter words: KNOWN-FINDINGs, one per word.',
      note=PROOF_NOTE + 'Pinned/ is trusted to be the published lists (generated once from the pinned commit). NFKD/NFC facts are about Unicode data outside the repository: executed exhaustively with unicodedata and utf8proc.',
